@@ -28,6 +28,8 @@ def content(c: int, size=None) -> bytes:
 def member_name(n: int, c: int) -> str:
     return f"{NAMES.get(n, 'n%d' % n)}_{c}"
 
+from .common import MachineryError
+
 
 class Counter:
     def __init__(self):
@@ -224,6 +226,11 @@ def run_history(py7zr, hist, workdir, *, target="path", filters_by_session=None,
                     z.write(fp, nm)
                 else:
                     p = os.path.join(workdir, f"src_{c}")
+                    if fault == "lstat" and c % 3 == 0:
+                        # a source that exists but is no file, directory or link (a FIFO): rejected like a source that cannot be stat'ed
+                        os.mkfifo(p)
+                        z.write(p, nm)
+                        raise MachineryError("write() of a FIFO returned")
                     if fault != "missing":
                         with open(p, "wb") as f:
                             f.write(data)
